@@ -18,9 +18,113 @@ from __future__ import annotations
 import ast
 from typing import Any, Callable, Dict, Optional
 
-from sa.blockeval import BlockEval, Unknown
+import copy
+
+from sa.blockeval import BlockEval, Unknown, _Rewrite
+from sa.consteval import Folder, NotConst
 
 _PROPERTY = ("property", "cached_property")
+_MEMO = ("lru_cache", "cache")
+# methods of plain containers that a fragment may call inside an expression (`pool.setdefault(k, {})`, `seen.pop(k, None)`)
+_CONTAINER_CALLS = {
+    dict: ("setdefault", "get", "pop", "update", "clear", "copy", "keys", "values", "items", "popitem"),
+    list: ("append", "extend", "insert", "pop", "remove", "clear", "copy", "index", "count", "sort", "reverse"),
+    set: ("add", "discard", "remove", "pop", "clear", "copy", "update", "union", "intersection", "difference", "issubset"),
+}
+_MISSING = object()
+
+
+def _is_stub(o: Any) -> bool:
+    return getattr(o, "_folder_stub", False) is True
+
+
+class FolderX(Folder):
+    """Folder + calls of container methods on plain containers reached from the fragment's objects (they change the container
+    the analysed code would change), getattr / hasattr / setattr / vars / id on rule-supplied stubs."""
+
+    def child(self, extra):
+        f = FolderX(self.repo, self.module, {**self.local, **extra}, self.cls, self.world)
+        f._busy = self._busy
+        return f
+
+    def _f_Call(self, n):
+        f = n.func
+        if isinstance(f, ast.Attribute) and not n.keywords:
+            try:
+                recv = self.fold(f.value)
+            except NotConst:
+                recv = _MISSING
+            if recv is not _MISSING:
+                for t, names in _CONTAINER_CALLS.items():
+                    if type(recv) is t and f.attr in names:
+                        r = getattr(recv, f.attr)(*self._elts(n.args))
+                        return list(r) if f.attr in ("keys", "values", "items") else r
+        if isinstance(f, ast.Name) and f.id not in self.local and not n.keywords:
+            if f.id == "getattr" and len(n.args) in (2, 3):
+                o, name = self.fold(n.args[0]), self.fold(n.args[1])
+                if _is_stub(o) and isinstance(name, str):
+                    try:
+                        return getattr(o, name)
+                    except AttributeError:
+                        if len(n.args) == 3:
+                            return self.fold(n.args[2])
+                        raise
+            if f.id == "hasattr" and len(n.args) == 2:
+                o, name = self.fold(n.args[0]), self.fold(n.args[1])
+                if _is_stub(o) and isinstance(name, str):
+                    try:
+                        getattr(o, name)
+                        return True
+                    except AttributeError:
+                        return False
+            if f.id == "setattr" and len(n.args) == 3:
+                o, name, v = self.fold(n.args[0]), self.fold(n.args[1]), self.fold(n.args[2])
+                if _is_stub(o) and isinstance(name, str):
+                    set_attribute(o, name, v)
+                    return None
+            if f.id == "vars" and len(n.args) == 1:
+                o = self.fold(n.args[0])
+                if _is_stub(o):
+                    return instance_dict(o)
+            if f.id == "id" and len(n.args) == 1:
+                return ("id", id(self.fold(n.args[0])))  # only ever compared with another id of the same evaluation
+        return super()._f_Call(n)
+
+    def _f_Compare(self, n):
+        if len(n.ops) == 1 and isinstance(n.ops[0], (ast.Eq, ast.NotEq, ast.Lt, ast.LtE, ast.Gt, ast.GtE)):
+            # element-wise comparison of a rule-supplied column / array stub gives a mask object, not a truth value
+            left, right = self.fold(n.left), self.fold(n.comparators[0])
+            if _is_stub(left) or _is_stub(right):
+                import operator as _op
+
+                f = {ast.Eq: _op.eq, ast.NotEq: _op.ne, ast.Lt: _op.lt, ast.LtE: _op.le, ast.Gt: _op.gt, ast.GtE: _op.ge}[type(n.ops[0])]
+                return f(left, right)
+            from sa.consteval import _CMPOPS
+
+            return bool(_CMPOPS[type(n.ops[0])](left, right))
+        return super()._f_Compare(n)
+
+    def _f_Attribute(self, n):
+        if n.attr == "__dict__":
+            o = self.fold(n.value)
+            if _is_stub(o):
+                return instance_dict(o)
+        return super()._f_Attribute(n)
+
+
+def instance_dict(o: Any) -> Dict[str, Any]:
+    """what `o.__dict__` is for the analysed code: the attributes the rule gave the stub + those the code stored (one live dict)"""
+    if isinstance(o, ClassStub):
+        return o.__dict__["_attrs"]
+    return o.__dict__
+
+
+def set_attribute(o: Any, name: str, v: Any) -> None:
+    if isinstance(o, ClassStub):
+        o.__dict__["_attrs"][name] = v
+        o.__dict__["_cache"].pop(name, None)
+    else:
+        setattr(o, name, v)
 
 
 class Stub:
@@ -35,9 +139,64 @@ class Stub:
 
 
 class BlockEvalX(BlockEval):
-    def __init__(self, repo, module: str, env: Optional[Dict[str, Any]] = None, max_steps: int = 200000, depth: int = 0):
+    def __init__(self, repo, module: str, env: Optional[Dict[str, Any]] = None, max_steps: int = 200000, depth: int = 0, module_funcs: bool = True):
         super().__init__(repo, module, env, max_steps)
         self.depth = depth
+        self.module_funcs = module_funcs
+        if module_funcs:
+            # undecorated module-level functions of the analysed module that the rule did not replace by a stub are interpreted
+            # like local helpers; their free names are the globals the rule supplied (not the locals of the calling fragment)
+            self.globals_env: Dict[str, Any] = dict(env or {}) if depth == 0 else dict((env or {}).get("__globals_env__", {}))
+            try:
+                funcs = repo.module(module).funcs
+            except Exception:
+                funcs = {}
+            for name, fi in funcs.items():
+                if "." in name or name in self.env or fi.node.decorator_list or not isinstance(fi.node, ast.FunctionDef):
+                    continue
+                self.env[name] = self._module_function(fi.node)
+
+    def fold(self, e: ast.AST) -> Any:
+        e2 = ast.fix_missing_locations(_Rewrite().visit(copy.deepcopy(e)))
+        f = FolderX(self.repo, self.module, self.env, world=self.world)
+        try:
+            return f.fold(e2)
+        except NotConst as ex:
+            raise Unknown(f"`{ast.unparse(e)[:60]}`: {ex}")
+        finally:
+            for k in getattr(f, "_walrus", ()):
+                if k in f.local:
+                    self.env[k] = f.local[k]
+
+    def _assign(self, t: ast.AST, v: Any) -> None:
+        if isinstance(t, ast.Attribute):
+            o = self.fold(t.value)
+            if not _is_stub(o):
+                raise Unknown(f"assignment target `{ast.unparse(t)[:40]}`")
+            set_attribute(o, t.attr, v)
+            return
+        if isinstance(t, ast.Subscript) and not (isinstance(t.value, ast.Name) and t.value.id in self.env):
+            box = self.fold(t.value)
+            if type(box) in (dict, list):
+                box[self.fold(t.slice)] = v
+                return
+        super()._assign(t, v)
+
+    def _module_function(self, fn: ast.FunctionDef) -> Callable[..., Any]:
+        outer = self
+        made: Dict[str, Callable[..., Any]] = {}
+
+        def call(*vals):
+            if "f" not in made:
+                g = BlockEvalX(outer.repo, outer.module, dict(outer.globals_env), outer.max_steps, 0, True)
+                g.depth = outer.depth
+                made["f"] = g.make_function(fn)
+                made["g"] = g
+            made["g"].depth = outer.depth
+            return made["f"](*vals)
+
+        call.__name__ = fn.name
+        return call
 
     def make_function(self, fn: ast.FunctionDef, bound_self: Any = None, extra_env: Optional[Dict[str, Any]] = None) -> Callable[..., Any]:
         a = fn.args
@@ -58,7 +217,9 @@ class BlockEvalX(BlockEval):
                 ps = ps[1:]
             if len(vals) > len(ps):
                 raise TypeError(f"{fn.name}() takes {len(ps)} positional arguments but {len(vals)} were given")
-            sub = BlockEvalX(outer.repo, outer.module, env, outer.max_steps, outer.depth + 1)
+            if outer.module_funcs:
+                env["__globals_env__"] = outer.globals_env
+            sub = BlockEvalX(outer.repo, outer.module, env, outer.max_steps, outer.depth + 1, outer.module_funcs)
             for p, v in zip(ps, vals):
                 sub.env[p] = v
             for p in ps[len(vals) :]:
@@ -94,6 +255,21 @@ class BlockEvalX(BlockEval):
             if isinstance(c.func, ast.Attribute) and isinstance(root, ast.Name) and getattr(self.env.get(root.id), "_folder_stub", False):
                 self.fold(c)
                 return
+            if isinstance(c.func, ast.Attribute):
+                try:
+                    recv = self.fold(c.func.value)
+                except Unknown:
+                    recv = None
+                if any(type(recv) is t and c.func.attr in names for t, names in _CONTAINER_CALLS.items()):
+                    self.fold(c)
+                    return
+        if isinstance(st, ast.Delete) and all(isinstance(t, ast.Subscript) for t in st.targets):
+            for t in st.targets:
+                box = self.fold(t.value)
+                if type(box) not in (dict, list):
+                    raise Unknown(f"statement `{ast.unparse(st)[:50]}`")
+                del box[self.fold(t.slice)]
+            return
         if isinstance(st, (ast.Assert,)):
             if not self.fold(st.test):
                 raise AssertionError(ast.unparse(st.test)[:60])
@@ -151,8 +327,22 @@ class ClassStub:
                 finally:
                     d["_busy"].discard(name)
                 if "cached_property" in decos:
-                    d["_cache"][name] = val
+                    d["_attrs"][name] = val  # functools.cached_property stores the value in the instance dict under the property's name
                 return val
+            if decos and all(x in _MEMO for x in decos):
+                plain = self._evaluator().make_function(fn, bound_self=self)
+                memo = d.setdefault("_memo", {}).setdefault(name, {})
+
+                def memoised(*vals):
+                    try:
+                        hash(vals)
+                    except TypeError:
+                        raise Unknown(f"unhashable argument of the memoised method `{name}`")
+                    if vals not in memo:
+                        memo[vals] = plain(*vals)
+                    return memo[vals]
+
+                return memoised
             if [x for x in decos if x not in ("staticmethod",)]:
                 raise Unknown(f"method `{name}` is decorated with {decos}")
             if "staticmethod" in decos:
